@@ -472,6 +472,10 @@ def value_sink(ob):
 def main(repo_path, tier, seed, replay=None):
     run = Run('C16', tier, level='proof', seed=seed)
     repo = Repo(repo_path)
+    import re
+    from .. import memo
+    memo.check(run, repo, 'C16-MEMO', lambda rel, q: rel.endswith('memory_controller_hub.py') or rel.endswith('memory_types.py'),
+               'the memory controller hub and the memory devices')
     check_devices(run, repo)
     check_hub(run, repo)
     eff = Effects(repo)
